@@ -215,6 +215,16 @@ pub fn closes(s: &AppScript) -> bool {
 /// business, not this oracle's.
 pub fn progress(scn: &Scenario, l: &RunLog) -> Vec<Finding> {
     let mut v = vec![];
+    // "On an established connection": the acceptor is established once the connector's first packet
+    // has reached it. A plan that keeps every packet of the connector away until the acceptor's SYN-ACK
+    // retries are used up (max_retransmissions x 200 ms) never produced one.
+    if let Some(t_synack) = l.wire.iter().find(|w| !w.from_a && w.ptype == 2 && !w.injected).map(|w| w.t_us) {
+        let retries_us = scn.b.max_retx as u64 * 200_000;
+        let first_from_connector = l.wire.iter().filter(|w| w.from_a && w.ptype != 4 && !w.injected).filter_map(|w| delivery_time(l, w.k)).min();
+        if first_from_connector.map(|t| t > t_synack + retries_us).unwrap_or(true) {
+            return v;
+        }
+    }
     let want = [script_bytes(&scn.app_a), script_bytes(&scn.app_b)];
     let horizon_us = scn.horizon_s * 1_000_000;
     // state at the horizon
